@@ -46,7 +46,7 @@ def _alarm(signum, frame):
 
 def make_obj(o):
     import rtamt
-    fac = getattr(rtamt, o.get("factory", "StlDiscreteTimeSpecification"))
+    fac = getattr(rtamt, o.get("factory", "StlDenseTimeSpecification" if o.get("dense") else "StlDiscreteTimeSpecification"))
     sem = o.get("mode", {}).get("sem", "standard")
     if sem != "standard":
         semv = {"out_rob": rtamt.Semantics.OUTPUT_ROBUSTNESS, "in_rob": rtamt.Semantics.INPUT_ROBUSTNESS,
@@ -108,6 +108,16 @@ def run_case(case):
                 elif a == "pastify":
                     specs[oi].pastify()
                     o["implPast"] = readback(specs[oi].ast.specs[-1], S)
+                elif a in ("update", "evaluate") and o.get("dense"):
+                    spec = specs[oi]
+                    tS = o.get("tS", 1)
+                    order = ev.get("order") or sorted(ev["w"].keys())
+                    args = [[v, [[py_val(p[0], tS, False), py_val(p[1], S, ev.get("flt", False))] for p in ev["w"][v]]] for v in order]
+                    keep = copy.deepcopy(args)
+                    ev["ret"] = []; ev["same"] = True
+                    r = spec.update(*args) if a == "update" else spec.evaluate(*args)
+                    ev["ret"] = [[enc(p[0], 2 * tS), enc(p[1], S)] for p in r]
+                    ev["same"] = (args == keep)
                 elif a == "update":
                     spec = specs[oi]
                     order = ev.get("order") or sorted(ev["s"].keys())
